@@ -15,7 +15,7 @@ func init() {
 		ID: "C09", Level: "exploration", PanicClause: "C09.panic",
 		Cases: func(tier string) int {
 			if tier == "quick" {
-				return 8000
+				return 16000
 			}
 			return 600000
 		},
